@@ -230,6 +230,14 @@ def correspondence(ctx):
         if not t['success']:
             ctx.violation('tifa-failed', {'code': pl['code'], 'why': 'analysis failed internally: %s' % t['error']})
             continue
+        sh = r.get('shared')
+        if sh is not None:
+            key = lambda x: (x[0], str(x[1]), x[2] or 0)
+            if 'raised' in sh or sorted(sh['issues'], key=key) != sorted(t['issues'], key=key):
+                ctx.violation('diagnoses-depend-on-earlier-programs',
+                              {'code': pl['code'], 'alone': t['issues'], 'after-other-programs': sh,
+                               'why': 'analysed on a report that analysed other programs before (not cleared), the program gets %s; analysed alone: %s'
+                                      % (sh.get('issues', sh.get('raised')), t['issues'])})
         # ---- the property on the real implementation, against real executions
         truth = r.get('truth')
         if truth and 'sites' in truth:
